@@ -30,8 +30,9 @@ PROBES = [
     "bystander-op",
     "dead-node-count-asked-by-subscript",
     "refused-call-then-exactness-checked",
+    "first-write-refused-then-exactness-checked",
 ]
-FAULTS = ["batch-abort", "batch-abort-base", "restart-regenerated-counts"]
+FAULTS = ["batch-abort", "batch-abort-base", "restart-regenerated-counts", "write-fail-not-applied"]
 COMPONENTS = {
     "real": ["trie.hexary.HexaryTrie (prune=True)", "HexaryTrie.squash_changes", "trie.utils.db.ScratchDB", "regenerate_ref_count"],
     "stub": ["SimDB mapping (the disk)", "writer / batch / operator client actors"],
@@ -80,6 +81,14 @@ class World(HWorld):
         if h.bgen is None:
             self.changed = True
         return out
+
+    def mutation_raised(self, h, cmd, exc):
+        if self.fired:
+            # the store refused the *first* write of the operation and kept nothing of it:
+            # nothing has changed, so the trie must be as exact as it was (checked in after())
+            self.st.probe("first-write-refused-then-exactness-checked")
+            return "failed:" + type(exc).__name__
+        return super().mutation_raised(h, cmd, exc)
 
     def op_by(self, h, cmd):
         k = unhx(cmd["k"])
@@ -166,6 +175,11 @@ def generate(rng):
     if rng.random() < 0.3:
         for _ in range(rng.choice([1, 2, 4])):
             cmds.insert(rng.randrange(len(cmds) + 1), {"op": "badset", "k": hx(rng.choice(pool)), "bad": rng.choice(["str", "none", "int"]), "arg": rng.choice(["value", "value", "key"]), "on": rng.choice(["live", "batch"])})
+    if rng.random() < 0.3:
+        # the store refuses the first write of some direct operations (nothing is kept)
+        for c in cmds:
+            if c["op"] in ("set", "del", "sete") and c.get("on") == "live" and rng.random() < 0.1:
+                c["fw"] = [1, 0, rng.choice("EKOB")]
     return {"prop": ID, "cfg": {"prune": True, "cache": cache, "rc": rng.choice(["defaultdict", "defaultdict", "counter"]), "ask_dead": int(rng.random() < 0.5), "store": rng.choice(["min", "min", "dict"])}, "cmds": cmds}
 
 
